@@ -81,14 +81,14 @@ def check(an, rep, tier):
                             % got)
     _rel_norm(prog, rep)
     F.check_selectors(prog, rep)
-    F.check_rank_formula(prog, rep, 'svd.matrix_svd')
-    F.check_rank_formula(prog, rep, 'svd.matrix_skeleton')
+    F.check_rank_value(an, rep, 'svd.matrix_svd')
+    F.check_rank_value(an, rep, 'svd.matrix_skeleton')
     if tier == 'thorough':
         from .. import rules_tables
         rules_tables.check_interleave(prog, rep)
     rep.floor('O-sweep', 2, 'TT-SVD typestates')
     rep.floor('O-summary', 5, 'factor summaries')
-    rep.floor('O-gram', 3, 'selectors')
+    rep.floor('O-gram', 2, 'selectors')
     rep.floor('F-rank', 2, 'rank formulas')
     rep.floor('P-rel-norm', 1, 'relative tail measure')
     rep.floor('S-ret', 4, 'results')
